@@ -71,4 +71,68 @@ contract('gnpy.core.info.SpectralInformation.__init__', props=['C07', 'C01', 'C0
                                  'self._frequency[k + 1] - self._slot_width[k + 1] / 2, n - 1)'),
                   ('baud_fits_slot', 'forall(lambda k: self._baud_rate[k] <= self._slot_width[k], n)'),
                   ('df', 'forall2(lambda i, j: self._df[i, j] == self._frequency[j] - self._frequency[i], n, n)')],
-         modifies=['self.*'])
+         modifies=[(f'self._{a}', vec_len('len(frequency)', 'str' if a == 'label' else 'real')) for a in SI_ARGS] +
+                  [('self._number_of_channels', expr('len(frequency)')), ('self._df', mat_len('len(frequency)')),
+                   ('self._channel_number', vec_len('len(frequency)', 'int'))])
+
+FIELDS16 = ['frequency', 'baud_rate', 'slot_width', 'pch', 'signal_ratio', 'ase_ratio', 'nli_ratio', 'roll_off',
+            'chromatic_dispersion', 'pmd', 'pdl', 'latency', 'delta_pdb_per_channel', 'tx_osnr', 'tx_power', 'label']
+
+# select_channels: every one of the 16 per-channel arrays of the result is the same-named array of the input,
+# restricted by ONE common index map (mask order-embedding followed by the constructor's sorting permutation)
+contract('gnpy.core.info.select_channels', props=['C07', 'C01'],
+         params={'spectrum': SI(), 'select': vec('n', 'bool')},
+         let={'emb': 'mask_index(select)', 'm': 'emb[0]', 'iota': 'emb[1]',
+              'pi': 'sort_perm(spectrum._frequency[select])[0]'},
+         raises={'SpectrumError': None},
+         ensures=[(f'field_{a}', f'forall(lambda k: result._{a}[k] == spectrum._{a}[iota(pi(k))], m)') for a in FIELDS16] +
+                 [('kept_are_selected', 'forall(lambda k: select[iota(pi(k))], m)'),
+                  ('nch', 'result._number_of_channels == m'),
+                  ('sorted', 'forall2(lambda a, b: implies(a < b, result._frequency[a] <= result._frequency[b]), m, m)')],
+         returns=SI('m_sel'),
+         modifies=[])
+
+contract('gnpy.core.info.is_in_band', props=['C07', 'C04'],
+         params={'frequency': vec('n'), 'slot_width': vec('n'), 'band': dct(f_min=real(), f_max=real())},
+         ensures=[('def', "forall(lambda i: iff(result[i], frequency[i] - slot_width[i] / 2 >= band['f_min'] and "
+                          "frequency[i] + slot_width[i] / 2 <= band['f_max']), len(frequency))"),
+                  ('len', 'len(result) == len(frequency)')],
+         returns=vec_len('len(frequency)', 'bool'), pure=True)
+
+SI2 = SI('n2')
+contract('gnpy.core.info.SpectralInformation.__add__', props=['C07', 'C01'],
+         params={'self': SI(), 'other': SI('n2')},
+         let={'pi': 'sort_perm(append(self._frequency, other._frequency))[0]',
+              'tot': 'self._number_of_channels + other._number_of_channels'},
+         raises={'SpectrumError': None},
+         # each merged array is the concatenation of the two same-named arrays, re-ordered by one common permutation
+         ensures=[(f'field_{a}', f'forall(lambda k: result._{a}[k] == append(self._{a}, other._{a})[pi(k)], tot)')
+                  for a in FIELDS16] +
+                 [('nch', 'result._number_of_channels == tot'),
+                  ('perm_range', 'forall(lambda k: 0 <= pi(k) and pi(k) < tot, tot)'),
+                  ('sorted', 'forall2(lambda a, b: implies(a < b, result._frequency[a] <= result._frequency[b]), tot, tot)'),
+                  ('no_overlap', 'forall(lambda k: result._frequency[k] + result._slot_width[k] / 2 <= '
+                                 'result._frequency[k + 1] - result._slot_width[k + 1] / 2, tot - 1)')],
+         returns=SI('n_sum'), modifies=[])
+
+contract('gnpy.core.info.demuxed_spectral_information', props=['C07', 'C04'],
+         params={'input_si': SI(), 'band': dct(f_min=real(), f_max=real())},
+         spec='''
+def inband(si, band, i):
+    return si._frequency[i] - si._slot_width[i] / 2 >= band['f_min'] and si._frequency[i] + si._slot_width[i] / 2 <= band['f_max']
+''',
+         raises={'SpectrumError': None},
+         ensures=[('none_iff_no_channel_in_band',
+                   'implies(is_none(result), forall(lambda i: not inband(input_si, band, i), input_si._number_of_channels))'),
+                  ('some_channel_in_band_otherwise',
+                   'implies(not is_none(result), exists(lambda i: inband(input_si, band, i), input_si._number_of_channels))'),
+                  ] +
+                 [(f'field_{a}', f'implies(not is_none(result), forall(lambda k: result._{a}[k] == input_si._{a}[iota(pi(k))], m))')
+                  for a in FIELDS16] +
+                 [('kept_in_band', 'implies(not is_none(result), forall(lambda k: inband(input_si, band, iota(pi(k))), m))'),
+                  ('all_in_band_kept', 'implies(not is_none(result), forall(lambda i: implies(inband(input_si, band, i), '
+                                       '0 <= emb[2](i) and emb[2](i) < m and iota(emb[2](i)) == i), input_si._number_of_channels))'),
+                  ('nch', 'implies(not is_none(result), result._number_of_channels == m)')],
+         let={'mask': 'is_in_band(input_si._frequency, input_si._slot_width, band)', 'emb': 'mask_index(mask)',
+              'm': 'emb[0]', 'iota': 'emb[1]', 'pi': 'sort_perm(input_si._frequency[mask])[0]'},
+         returns=opt(SI('n_demux')), modifies=[])
